@@ -123,3 +123,48 @@ def filter_known(prop, violations, failing, known):
     if hits:
         return [], hits
     return violations, hits
+
+
+def followup(prop, spec, corr, tier, seed):
+    """Divergence follow-up: the implementation's state differs from the model's on observables
+    this property does not compare (typically the queue snapshot).  The exploration is
+    model-guided, so behaviour AFTER such a divergence was not explored: continue every
+    divergent history by all contract-respecting continuations (depth 2, thorough 3) and
+    evaluate this property's monitor on the implementation's traces."""
+    mon = spec.get("monitor")
+    if not mon:
+        return None
+    keys = set(spec["keys"])
+    div = {}
+    for r in corr["runs"]:
+        for m in r["mismatches"]:
+            if m["key"] in keys or m["key"] in ("crash", "shape", "a") or not m.get("history"):
+                continue
+            div.setdefault((r["name"], m["flavour"].split("@")[0]), [])
+            if m["history"] not in div[(r["name"], m["flavour"].split("@")[0])] and len(div[(r["name"], m["flavour"].split("@")[0])]) < 60:
+                div[(r["name"], m["flavour"].split("@")[0])].append(m["history"])
+    if not div:
+        return None
+    workdir = tempfile.mkdtemp(prefix="follow-", dir=BUILD)
+    depth = "3" if tier == "thorough" else "2"
+    for (rname, fl), hists in div.items():
+        base = os.path.join(workdir, "base.hist")
+        with open(base, "w") as f:
+            f.write("\n".join(hists) + "\n")
+        ext = subprocess.run([MODELRUN, "extend", depth, base], capture_output=True, text=True).stdout
+        lines = [l for l in ext.splitlines() if l.strip()]
+        if hists and hists[0].startswith("mpmc;"):
+            from check import retag_line
+            lines = [retag_line(l) for l in lines]
+        if not lines:
+            continue
+        fails = _run_monitor(mon["id"], lines, fl, workdir)
+        if fails:
+            fails.sort(key=lambda x: (x[0], len(x[1])))
+            small = shrink(mon["id"], fails[0][1], fl, workdir)
+            obs = subprocess.run([HARNESS, fl], input=small + "\n", capture_output=True, text=True).stdout.strip()
+            model = subprocess.run([MODELRUN, "print", "-"], input=small + "\n", capture_output=True, text=True).stdout.strip()
+            return dict(history=small, flavour=fl, monitor=mon["id"], run=rname, found_by="divergence follow-up",
+                        failing_histories=len(fails), implementation_trace=obs.split(";"), model_trace=model.split(";"),
+                        klass=classify(prop, small))
+    return None
